@@ -174,12 +174,13 @@ Section Canon.
     frelx rs (LA ++ layout e B) XF ->
     merge_fwd fuel rs e = (rs', e') ->
     exists F B', B = F ++ B' /\ all_free F /\ e' = e + slen F /\
-      frelx rs' (LA ++ layout e' B') XF /\ fwf rs' /\ recs rs' = recs rs.
+      frelx rs' (LA ++ layout e' B') XF /\ fwf rs' /\ recs rs' = recs rs /\
+      (forall q i n, In (q, i, n) (layout e F) -> ~ XF q).
   Proof.
     induction fuel as [|f IH]; intros rs LA e B rs' e' FW HLA TR; cbn [merge_fwd].
-    - intros [= <- <-]. exists [], B. rewrite slen_nil, N.add_0_r. split; [reflexivity|]. split; [apply all_free_nil|]. split; [reflexivity|]. split; [assumption|]. split; [assumption|reflexivity].
+    - intros [= <- <-]. exists [], B. rewrite slen_nil, N.add_0_r. split; [reflexivity|]. split; [apply all_free_nil|]. split; [reflexivity|]. split; [assumption|]. split; [assumption|]. split; [reflexivity|intros q0 i0 n0 []].
     - destruct (m_get (fps rs) e) as [n'|] eqn:Eg.
-      2:{ intros [= <- <-]. exists [], B. rewrite slen_nil, N.add_0_r. split; [reflexivity|]. split; [apply all_free_nil|]. split; [reflexivity|]. split; [assumption|]. split; [assumption|reflexivity]. }
+      2:{ intros [= <- <-]. exists [], B. rewrite slen_nil, N.add_0_r. split; [reflexivity|]. split; [apply all_free_nil|]. split; [reflexivity|]. split; [assumption|]. split; [assumption|]. split; [reflexivity|intros q0 i0 n0 []]. }
       intros HM. pose proof TR as [TRf TRx].
       assert (HXe : ~ XF e) by (intros HX; apply TRx in HX; congruence).
       assert (Hin : In (e, 0, n') (LA ++ layout e B)) by (apply TRf; assumption).
@@ -194,10 +195,11 @@ Section Canon.
             split; [tauto|]. intros [H|[H|H]]; auto. injection H as H _. congruence.
         - intros q HXq. rewrite fps_remove_free. destruct (e =? q); [reflexivity|auto]. }
       destruct (IH (remove_free rs e) LA (e + 16 + n') B1 rs' e' (fwf_remove_free _ _ _ FW Eg)
-                   ltac:(intros q i n H; apply HLA in H; lia) TR1 HM) as (F & B' & -> & HF & He' & TR' & FW' & HR).
+                   ltac:(intros q i n H; apply HLA in H; lia) TR1 HM) as (F & B' & -> & HF & He' & TR' & FW' & HR & HNX).
       exists ((0, p) :: F), B'. split; [reflexivity|]. split.
       { intros i v [[= <- _]|H]; [reflexivity|eapply HF; eassumption]. }
-      split; [rewrite slen_cons; cbn [snd]; lia|]. split; [assumption|]. split; [assumption|exact HR].
+      split; [rewrite slen_cons; cbn [snd]; lia|]. split; [assumption|]. split; [assumption|]. split; [exact HR|].
+      cbn [layout]. intros q0 i0 n0 [[= <- _ _]|H]; [assumption|]. rewrite Hp in H. eapply HNX; eassumption.
   Qed.
 
   Lemma merge_bwd_spec fuel XF : forall rs A LB rs' p',
@@ -206,14 +208,15 @@ Section Canon.
     merge_bwd fuel rs (24 + slen A) = (rs', p') ->
     exists A' F, A = A' ++ F /\ all_free F /\ p' = 24 + slen A' /\
       frelx rs' (layout 24 A' ++ LB) XF /\ fwf rs' /\ recs rs' = recs rs /\
-      (A' = A \/ ~ XF p').
+      (A' = A \/ ~ XF p') /\
+      (forall q i n, In (q, i, n) (layout (24 + slen A') F) -> ~ XF q).
   Proof.
     induction fuel as [|f IH]; intros rs A LB rs' p' FW HLB TR; cbn [merge_bwd].
-    - intros [= <- <-]. exists A, []. rewrite app_nil_r. split; [reflexivity|]. split; [apply all_free_nil|]. split; [reflexivity|]. split; [assumption|]. split; [assumption|]. split; [reflexivity|left; reflexivity].
+    - intros [= <- <-]. exists A, []. rewrite app_nil_r. split; [reflexivity|]. split; [apply all_free_nil|]. split; [reflexivity|]. split; [assumption|]. split; [assumption|]. split; [reflexivity|]. split; [left; reflexivity|intros q0 i0 n0 []].
     - destruct (m_prev (fps rs) (24 + slen A)) as [[pp n']|] eqn:Eg.
-      2:{ intros [= <- <-]. exists A, []. rewrite app_nil_r. split; [reflexivity|]. split; [apply all_free_nil|]. split; [reflexivity|]. split; [assumption|]. split; [assumption|]. split; [reflexivity|left; reflexivity]. }
+      2:{ intros [= <- <-]. exists A, []. rewrite app_nil_r. split; [reflexivity|]. split; [apply all_free_nil|]. split; [reflexivity|]. split; [assumption|]. split; [assumption|]. split; [reflexivity|]. split; [left; reflexivity|intros q0 i0 n0 []]. }
       destruct (N.eqb_spec (pp + 16 + n') (24 + slen A)) as [Eend|].
-      2:{ intros [= <- <-]. exists A, []. rewrite app_nil_r. split; [reflexivity|]. split; [apply all_free_nil|]. split; [reflexivity|]. split; [assumption|]. split; [assumption|]. split; [reflexivity|left; reflexivity]. }
+      2:{ intros [= <- <-]. exists A, []. rewrite app_nil_r. split; [reflexivity|]. split; [apply all_free_nil|]. split; [reflexivity|]. split; [assumption|]. split; [assumption|]. split; [reflexivity|]. split; [left; reflexivity|intros q0 i0 n0 []]. }
       intros HM. pose proof TR as [TRf TRx]. pose proof FW as (KS & _).
       apply m_prev_In in Eg. destruct Eg as [Hin Hlt].
       assert (Eg : m_get (fps rs) pp = Some n') by (apply In_get; assumption).
@@ -232,11 +235,13 @@ Section Canon.
         - intros q HXq. rewrite fps_remove_free. destruct (pp =? q); [reflexivity|auto]. }
       rewrite Hpp in HM. rewrite Hpp in Eg.
       destruct (IH (remove_free rs (24 + slen A1)) A1 LB rs' p' (fwf_remove_free _ _ _ FW Eg)
-                   ltac:(intros q i n H; apply HLB in H; rewrite slen_app in H; lia) TR1 HM) as (A' & F & -> & HF & He' & TR' & FW' & HR & HX').
+                   ltac:(intros q i n H; apply HLB in H; rewrite slen_app in H; lia) TR1 HM) as (A' & F & -> & HF & He' & TR' & FW' & HR & HX' & HNX).
       exists A', (F ++ [(0, p)]). split; [now rewrite app_assoc|]. split.
       { intros i v H. apply in_app_or in H. destruct H as [H|[[= <- _]|[]]]; [eapply HF; eassumption|reflexivity]. }
-      split; [assumption|]. split; [assumption|]. split; [assumption|]. split; [exact HR|].
-      right. destruct HX' as [EA|HX']; [|assumption]. rewrite <- EA in Hpp. rewrite He', <- Hpp. assumption.
+      split; [assumption|]. split; [assumption|]. split; [assumption|]. split; [exact HR|]. split.
+      { right. destruct HX' as [EA|HX']; [|assumption]. rewrite <- EA in Hpp. rewrite He', <- Hpp. assumption. }
+      intros q0 i0 n0 H. rewrite layout_app, in_app_iff in H. destruct H as [H|H]; [eapply HNX; eassumption|].
+      cbn [layout In] in H. destruct H as [[= <- _ _]|[]]. replace (24 + slen A' + slen F) with pp by (rewrite Hpp, slen_app; lia). assumption.
   Qed.
 
   (* free_a_region on a gap of at least 16 bytes: the gap and the free regions around it
@@ -247,6 +252,7 @@ Section Canon.
     ~ XF (24 + slen A) ->
     (forall s' A' F1 F2 B' X,
         A = A' ++ F1 -> B = F2 ++ B' -> all_free F1 -> all_free F2 ->
+        (forall q i n, In (q, i, n) (layout (24 + slen A') F1 ++ layout (24 + slen A + lenN g) F2) -> ~ XF q) ->
         cur (sdata s') = vrec ++ ser (A' ++ (0, X) :: B') ->
         lenN X + 16 = slen F1 + lenN g + slen F2 ->
         lenN (cur (sdata s')) = lenN (cur (sdata s)) ->
@@ -265,12 +271,12 @@ Section Canon.
     assert (BA : forall q i n, In (q, i, n) (layout 24 A) -> q + 16 + n <= 24 + slen A + lenN g)
       by (intros q i n H; apply layout_range in H; lia).
     destruct (merge_fwd_spec _ _ _ _ _ _ _ _ FW BA TR E1)
-      as (F2 & B' & -> & HF2 & He & TR1 & FW1 & HR1).
+      as (F2 & B' & -> & HF2 & He & TR1 & FW1 & HR1 & HNX2).
     destruct (merge_bwd (S (length (fps (rtab s)))) rs1 (24 + slen A)) as [rs2 p'] eqn:E2.
     assert (BB : forall q i n, In (q, i, n) (layout e B') -> 24 + slen A <= q)
       by (intros q i n H; apply layout_range in H; lia).
     destruct (merge_bwd_spec _ _ _ _ _ _ _ FW1 BB TR1 E2)
-      as (A' & F1 & -> & HF1 & Hp' & TR2 & FW2 & HR2 & HX2).
+      as (A' & F1 & -> & HF1 & Hp' & TR2 & FW2 & HR2 & HX2 & HNX1).
     assert (HXp' : ~ XF p').
     { destruct HX2 as [EA|HX2]; [|assumption]. rewrite Hp', EA. assumption. }
     set (G := ser F1 ++ g ++ ser F2).
@@ -290,6 +296,7 @@ Section Canon.
     apply wp_dwrite.
     { cbn [sdata set_rtab]. rewrite HLEN, slen_app. lia. }
     intros _. apply (HQ _ A' F1 F2 B' (skipn 16 G)); try reflexivity; try assumption.
+    - intros q i n H. apply in_app_or in H. destruct H as [H|H]; [eapply HNX1|eapply HNX2]; eassumption.
     - cbn [sdata set_cur set_data set_rtab cur]. rewrite Hcur2.
       rewrite bs_write_mid.
       + rewrite ser_app. cbn [ser]. unfold enc. cbn [fst snd]. rewrite HS, <- !app_assoc. reflexivity.
@@ -317,6 +324,24 @@ Section Canon.
     - cbn [rtab set_cur set_data set_rtab recs mark_free]. rewrite HR2, HR1. reflexivity.
   Qed.
 
+  (* the layout after merging: the entries of the live regions are where they were *)
+  Lemma merge_layout_same A A' F1 B F2 B' X G :
+    A = A' ++ F1 -> B = F2 ++ B' -> all_free F1 -> all_free F2 -> lenN X + 16 = slen F1 + G + slen F2 ->
+    forall q i n, i <> 0 ->
+      (In (q, i, n) (layout 24 (A' ++ (0, X) :: B')) <-> In (q, i, n) (layout 24 A ++ layout (24 + slen A + G) B)).
+  Proof.
+    intros -> -> HF1 HF2 HX q i n Hi.
+    rewrite !layout_app. cbn [layout]. rewrite !in_app_iff. cbn [In]. rewrite ?in_app_iff, ?slen_app.
+    assert (Z1 : forall P, ~ In (q, i, n) (layout P F1)).
+    { intros P H. apply layout_In in H. destruct H as (v & H & _). apply HF1 in H. congruence. }
+    assert (Z2 : forall P, ~ In (q, i, n) (layout P F2)).
+    { intros P H. apply layout_In in H. destruct H as (v & H & _). apply HF2 in H. congruence. }
+    replace (24 + slen A' + 16 + lenN X) with (24 + (slen A' + slen F1) + G + slen F2) by lia.
+    split.
+    - intros [H|[H|H]]; auto. injection H as _ <- _. congruence.
+    - intros [[H|H]|[H|H]]; auto; [destruct (Z1 _ H)|destruct (Z2 _ H)].
+  Qed.
+
   (* the usual case: nothing else is under way *)
   Lemma free_a_region_spec s A g B (Q : ST -> unit -> Prop) E :
     gtiles s A g B -> 16 <= lenN g ->
@@ -329,20 +354,12 @@ Section Canon.
   Proof.
     intros (Hcur & Hlen & TR & [TW FW] & Hv) Hg HQ.
     apply (free_region_low s A g B (fun _ => False)); auto using trel_frelx.
-    intros s' A' F1 F2 B' X EA EB HF1 HF2 Hcur' HX Hlen' FW' [TRf' _] HR Htx Hdur Hver.
+    intros s' A' F1 F2 B' X EA EB HF1 HF2 _ Hcur' HX Hlen' FW' [TRf' _] HR Htx Hdur Hver.
     apply (HQ s' A' F1 F2 B' X); auto.
     apply tiles_intro; auto; try congruence.
     - split; [|intros q n; apply TRf'; tauto].
-      intros q i n Hi. rewrite HR. rewrite <- (proj1 TR q i n Hi). subst A B.
-      rewrite !layout_app. cbn [layout]. rewrite !in_app_iff. cbn [In]. rewrite ?in_app_iff, ?slen_app.
-      assert (Z1 : forall P, ~ In (q, i, n) (layout P F1)).
-      { intros P H. apply layout_In in H. destruct H as (v & H & _). apply HF1 in H. congruence. }
-      assert (Z2 : forall P, ~ In (q, i, n) (layout P F2)).
-      { intros P H. apply layout_In in H. destruct H as (v & H & _). apply HF2 in H. congruence. }
-      replace (24 + slen A' + 16 + lenN X) with (24 + (slen A' + slen F1) + lenN g + slen F2) by lia.
-      split.
-      + intros [H|[H|H]]; auto. injection H as _ <- _. congruence.
-      + intros [[H|H]|[H|H]]; auto; [destruct (Z1 _ H)|destruct (Z2 _ H)].
+      intros q i n Hi. rewrite HR. rewrite <- (proj1 TR q i n Hi).
+      apply (merge_layout_same A A' F1 B F2 B' X (lenN g)); assumption.
     - split; [rewrite HR; exact TW|exact FW'].
   Qed.
 End Canon.
